@@ -296,8 +296,11 @@ class Namespace(argparse.Namespace):
                 self[key] = value
         else:
             prefix = key + "." if key else ""
-            for key, val in value.items():
-                if not only_unset or prefix + key not in self:
+            for key, val in value.items(branches=True):
+                if isinstance(val, Namespace):
+                    if not val and prefix + key not in self:
+                        self[prefix + key] = Namespace()
+                elif not only_unset or prefix + key not in self:
                     self[prefix + key] = val
         return self
 
